@@ -96,6 +96,23 @@ def random_events(ctx, rnd, n):
             if e:
                 evs.append(e)
             ctx.nontrivial.add(("write", "time" if isT else "dt", a["us"] >= 500, off % 60 != 0, off < 0, bool(name)))
+    # zones with daylight saving (PEP 495 fold): instants around both transitions, in particular the last half
+    # millisecond of the first pass through the repeated hour and the second pass itself
+    U = datetime.datetime
+    zones = [tc.RuleTZ(-300, -240, U(2021, 3, 14, 7), U(2021, 11, 7, 6), ("EST", "EDT")),
+             tc.RuleTZ(630, 660, U(2021, 10, 2, 15, 30), U(2022, 4, 2, 15), ("LHST", "LHDT")),
+             tc.RuleTZ(60, 0, U(2021, 10, 31, 1), U(2022, 3, 27, 1), ("IST", "GMT")),          # "negative" daylight saving
+             tc.RuleTZ(-30, 30, U(2021, 5, 1, 0, 30), U(2021, 9, 1, 0), ("WST", "WDT"))]        # offset changes sign
+    k = 0
+    for z in zones:
+        for edge in (z.start, z.end):
+            for d_us in (-3600000000, -1800000000, -1000, -501, -500, -499, -400, -1, 0, 1, 499, 500, 1000, 1800000000, 3599999600,
+                         3599999999, 3600000000, rnd.randrange(-7200000000, 7200000000)):
+                inst = (edge + datetime.timedelta(microseconds=d_us)).replace(tzinfo=datetime.timezone.utc)
+                v = inst.astimezone(z)
+                evs.append(tc.ev_unconv("d%d" % k, DT, tc.dtv(v), pyval=v))
+                ctx.nontrivial.add(("write-dst", z.names[1], edge is z.end, v.fold, d_us < 0))
+                k += 1
     # naive values are refused
     el_dt = tc.make_element(DT)
     el_tm = tc.make_element(TM)
